@@ -13,7 +13,7 @@ package main
 // set of valid seed messages every truncation point and every single-byte substitution from
 // {00,01,7f,80,ff,b-1,b+1, each single-bit flip}.
 // Every accepted result then goes through the accessor sweep: nil-safe getters, Hash of every
-// trip and vehicle, BuildJournal over [r], [r,r], [r,r'], [r',r] with three windows, ExportToCsv.
+// trip and vehicle, BuildJournal over 10 histories built from r, shortened versions of r and a second feed, with three windows, ExportToCsv.
 // Static: (a) per table structural faults (each required column removed, header only, empty
 // member, member missing, BOM only, lone quote, ragged rows, NUL bytes, non-numeric value in
 // every numeric column, duplicate header), k <= 2; (a') per file, under its valid header
@@ -112,7 +112,10 @@ func sweepRealtime(c *Ctx, r, other *gtfs.Realtime) {
 			}
 		}
 	})
-	histories := [][]*gtfs.Realtime{{r}, {r, r}}
+	// later versions of the same feed: every trip's update list shortened at the back / at
+	// the front / emptied, 60 s later (shrinking, growing and re-appearing lists in the journal)
+	head, tail, none := deriveFeed(r, 1), deriveFeed(r, 2), deriveFeed(r, 3)
+	histories := [][]*gtfs.Realtime{{r}, {r, r}, {r, head}, {r, tail}, {head, r}, {tail, r}, {r, none, r}, {r, tail, head}}
 	if other != nil {
 		histories = append(histories, []*gtfs.Realtime{r, other}, []*gtfs.Realtime{other, r})
 	}
@@ -128,6 +131,27 @@ func sweepRealtime(c *Ctx, r, other *gtfs.Realtime) {
 			c.Steps(1)
 		}
 	}
+}
+
+// deriveFeed returns a copy of r, one minute later, in which every trip's stop time updates
+// are cut at the back (1), at the front (2) or removed (3).
+func deriveFeed(r *gtfs.Realtime, mode int) *gtfs.Realtime {
+	n := &gtfs.Realtime{CreatedAt: r.CreatedAt.Add(time.Minute), Vehicles: r.Vehicles, Alerts: r.Alerts}
+	for i := range r.Trips {
+		t := r.Trips[i]
+		u := t.StopTimeUpdates
+		switch {
+		case mode == 1 && len(u) > 0:
+			u = u[:len(u)-1]
+		case mode == 2 && len(u) > 0:
+			u = u[1:]
+		case mode == 3:
+			u = nil
+		}
+		t.StopTimeUpdates = append([]gtfs.StopTimeUpdate(nil), u...)
+		n.Trips = append(n.Trips, t)
+	}
+	return n
 }
 
 func buildJournalGuarded2(c *Ctx, feeds []*gtfs.Realtime, start, end time.Time) (j *journalT, ok bool) {
@@ -648,7 +672,7 @@ func init() {
 	register(&Check{
 		ID:    "C05",
 		Level: "fault_enumeration",
-		Rule: "realtime: all byte strings <= 2 (thorough 3) bytes and all strings <= 4 (thorough 5) over a 20-byte wire alphabet in 4 framings (raw, after a valid header, inside an entity, inside a trip update) x 3 extension configurations; semantically malformed messages within k deviations (quick 2, thorough 3) x all 29 extension configurations; every truncation and every single-byte substitution (15 values) of 7 valid seed messages x 3 configurations; accessor sweep (getters, hashes, journals over 4 histories x 3 windows, CSV export) on every accepted result. " +
+		Rule: "realtime: all byte strings <= 2 (thorough 3) bytes and all strings <= 4 (thorough 5) over a 20-byte wire alphabet in 4 framings (raw, after a valid header, inside an entity, inside a trip update) x 3 extension configurations; semantically malformed messages within k deviations (quick 2, thorough 3) x all 29 extension configurations; every truncation and every single-byte substitution (15 values) of 7 valid seed messages x 3 configurations; accessor sweep (getters, hashes, journals over 10 histories x 3 windows, CSV export) on every accepted result. " +
 			"static: structural faults per table (k <= 2 tables at once), all CSV bodies <= 4 (thorough 6) over an 8-character alphabet appended to each of the 10 files, every truncation and single-byte substitution of 2 (thorough 6) seed archives; accessor sweep (acyclicity, Root(), pointer walk). " +
 			"non-trivial = distinct inputs other than the empty string; oracle = no panic, no worker death, no 60 s stall",
 		Assumptions: []string{"resource use proportional to the decompressed input is out of scope", "a nil *ParseRealtimeOptions is API misuse, not an input", "panic signatures normalise numbers so that one defect is one finding"},
